@@ -27,6 +27,7 @@ RULE = ("objects: 8 shape classes, 3 image classes, landmark managers, 12 homoge
 ASSUMPTIONS = ["alignment source/target and chain members are shared by documented design and excluded from the sharing query",
                "reading a group returns the stored object itself (editing it edits the stored landmarks) - that is the documented way to edit landmarks"]
 DECIDING_TAPS = ["copy", "LandmarkManager.__setitem__", "LandmarkManager.invariant"]
+REPLAY_PATHS = ['menpo/transform/test', 'menpo/shape', 'menpo/landmark/test', 'menpo/image/test', 'menpo/model/test', 'menpo/test']      # suite replay (thorough tier): the repository's own tests under these monitors
 SHARDS = {"quick": 8, "thorough": 16}
 
 _CTX = [None]
